@@ -16,6 +16,8 @@ structure Mech where
   guard : Bool := true
   /-- the error of `io.Copy` / of the deferred `Close` is returned -/
   copyErr : Bool := true
+  /-- the guard call on the ENTRY path is made inside the loop body (off: the caller has made it — `tarOneVet`) -/
+  pathGuard : Bool := true
 
 /-- the code as it is -/
 def Mech.code : Mech := {}
@@ -28,7 +30,7 @@ def tarOneV (m : Mech) (fs : FS) (root : P) (mask : Nat) (e : Entry) : FS × Boo
   if e.kind = .corrupt then (fs, false) else
   let path := cleanJoin root e.name
   if m.nameCheck && !lexV m root path (e.kind == .dir) then (fs, false)
-  else if m.guard && !ensureNoSymlinksR fs root path then (fs, false)
+  else if m.guard && m.pathGuard && !ensureNoSymlinksR fs root path then (fs, false)
   else match e.kind with
     | .reg =>
       match osMkdirAll fs path.dropLast (0o755 &&& mask) with
@@ -114,5 +116,33 @@ theorem tarOneV_guard (g : Bool) : tarOneV { guard := g } = tarOneG g := by
   funext fs root mask e
   unfold tarOneV tarOneG
   cases hk : e.kind <;> (simp [lexV]; try rfl)
+
+/-! ### the "remembered parent" shortcut (round 7): a loop with a memory
+
+An optimisation that remembers the parent directories the guard has already walked and, for a remembered parent, looks
+at the entry's own name only; the parent is remembered as soon as the entry's check passes — on the assumption that the
+entry then creates it.  Entries of a skipped kind create nothing. -/
+
+/-- one iteration; `vetted` are the remembered parents -/
+def tarOneVet (vetted : List P) (fs : FS) (root : P) (mask : Nat) (e : Entry) : (FS × Bool) × List P :=
+  if e.kind = .corrupt then ((fs, false), vetted) else
+  let path := cleanJoin root e.name
+  if !lexOK root path (e.kind == .dir) then ((fs, false), vetted) else
+  let parent := path.dropLast
+  let ok := if vetted.contains parent then ensureNoSymlinksR fs parent path else ensureNoSymlinksR fs root path
+  if !ok then ((fs, false), vetted) else
+  (tarOneV { pathGuard := false } fs root mask e, if path = root then vetted else parent :: vetted)
+
+def tarExtractVet (vetted : List P) (fs : FS) (root : P) (mask : Nat) : List Entry → FS × Bool
+  | [] => (fs, true)
+  | e :: es =>
+    match tarOneVet vetted fs root mask e with
+    | ((fs', false), _) => (fs', false)
+    | ((fs', true), v) => tarExtractVet v fs' root mask es
+
+/-- with nothing remembered an iteration is the code's -/
+theorem tarOneVet_nil (fs : FS) (root : P) (mask : Nat) (e : Entry) : (tarOneVet [] fs root mask e).1 = tarOneR fs root mask e := by
+  unfold tarOneVet tarOneV tarOneR tarOneG
+  cases hk : e.kind <;> (simp [lexV]; try (split <;> (try rfl) <;> (split <;> (try rfl) <;> simp_all)))
 
 end Ex
